@@ -469,7 +469,7 @@ pub fn evaluate(sc: &HistSc, h: &Hist, restore: &Option<RestoreEv>, out: &RunOut
           }
         }
       }
-      (COp::EntryOrInsert { k, cost }, Res::Val(id, ctr)) => {
+      (COp::EntryOrInsert { k, cost }, Res::Val(id, ctr)) | (COp::EntryOrInsertWith { k, cost, .. }, Res::Val(id, ctr)) => {
         if !e.wrote.is_empty() {
           // inserted its own value: the key must not have held a live entry
           if let Some(m) = j.model.get(k).cloned() {
@@ -628,7 +628,13 @@ impl HistFamily {
         9 => COp::Fetch { k },
         10 => COp::Peek { k },
         11 => COp::EntryGet { k },
-        12 => COp::EntryOrInsert { k, cost },
+        12 => {
+          if rng.chance(1, 2) {
+            COp::EntryOrInsert { k, cost }
+          } else {
+            COp::EntryOrInsertWith { k, cost, yields: rng.below(3) as u8 }
+          }
+        }
         13 => COp::Compute { k },
         14 => COp::MultiGet { ks: (0..rng.range(1, 4)).map(|_| rng.below(keys as u64) as u8).collect() },
         15 => COp::Remove { k },
@@ -889,7 +895,7 @@ impl Family for HistFamily {
 
 fn max_key(o: &COp) -> u8 {
   match o {
-    COp::Insert { k, .. } | COp::InsertTtl { k, .. } | COp::Get { k } | COp::Fetch { k } | COp::Peek { k } | COp::Remove { k } | COp::Invalidate { k } | COp::Compute { k } | COp::EntryOrInsert { k, .. } | COp::EntryGet { k } | COp::FetchWith { k } => *k,
+    COp::Insert { k, .. } | COp::InsertTtl { k, .. } | COp::Get { k } | COp::Fetch { k } | COp::Peek { k } | COp::Remove { k } | COp::Invalidate { k } | COp::Compute { k } | COp::EntryOrInsert { k, .. } | COp::EntryOrInsertWith { k, .. } | COp::EntryGet { k } | COp::FetchWith { k } => *k,
     COp::MultiGet { ks } | COp::MultiRemove { ks } | COp::IterRemove { ks, .. } => ks.iter().copied().max().unwrap_or(0),
     COp::MultiInsert { items } => items.iter().map(|x| x.0).max().unwrap_or(0),
     _ => 0,
